@@ -3,7 +3,8 @@
 
 What is read, and from where:
   back/utils.c     #define MAX_MSG_SIZE; inside print_msg(): the dimension of msg_buf, the size
-                   argument of `snprintf(msg_buf, <E>, ...)`, and the size argument of
+                   argument of `snprintf(msg_buf, <E>, ...)`, an optional clamp of msg_len
+                   (`if (msg_len >= E1) msg_len = E2;`) and the size argument of
                    `vsnprintf(msg_buf + msg_len, <E>, ...)` (an expression over msg_len)
   front/scanner.l  #define MAX_USE_DEPTH / MAX_FILE_NAME_LEN / MAX_NEVER_PATH_LEN, the dimension
                    of use_stack[], the depth guard of the <USE> rule (`if (use_stack_ptr OP E)`
@@ -192,6 +193,25 @@ def generate():
         mv = re.search(r"msg_len\s*\+=\s*vsnprintf\s*\(", body)
         if not mv:
             raise Untranslatable("`msg_len += vsnprintf(` not found in print_msg")
+        # statements touching msg_len between the two calls: only a clamp
+        #     if (msg_len OP E1) { msg_len = E2; }
+        # is understood (absent: msg_len keeps the value returned by snprintf)
+        semi = body.index(";", ms.end() + body[ms.end():].index(")"))
+        between = body[semi + 1:mv.start()]
+        names_len = dict(names); names_len["msg_len"] = "len"
+        mc = re.search(r"if\s*\(\s*(msg_len\s*(?:>=|>|==)\s*[^)]+)\)\s*\{?\s*msg_len\s*=\s*([^;]+);\s*\}?", between)
+        rest = between[:mc.start()] + between[mc.end():] if mc else between
+        if "msg_len" in rest or "msg_buf" in rest:
+            raise Untranslatable("statement touching msg_len/msg_buf between snprintf and vsnprintf not understood: %r" % rest.strip()[:120])
+        if mc:
+            lines.append("(* if (%s) msg_len = %s; *)" % (mc.group(1).strip(), mc.group(2).strip()))
+            lines.append("Definition msg_len_after_prefix (len : Z) : Z := if %s then %s else len." % (
+                cond(mc.group(1), names_len), expr(mc.group(2), names_len)))
+            vals["msg_len_clamp_src"] = "if (%s) msg_len = %s" % (mc.group(1).strip(), mc.group(2).strip())
+        else:
+            lines.append("(* msg_len is used as returned by snprintf *)")
+            lines.append("Definition msg_len_after_prefix (len : Z) : Z := len.")
+            vals["msg_len_clamp_src"] = "(none)"
         a = split_args(body[mv.end():])
         if re.sub(r"\s+", "", a[0]) != "msg_buf+msg_len":
             raise Untranslatable("vsnprintf target is %r, expected msg_buf + msg_len" % a[0])
